@@ -466,7 +466,7 @@ impl World {
                 }
                 if let Some(ex) = &r.exclude {
                     let ids: Vec<Vec<u8>> = ex.iter().map(|i| self.resolve(i)).collect();
-                    opts.public_key.exclude_credentials = Some(ids.iter().map(|i| descriptor(i)).collect());
+                    opts.public_key.exclude_credentials = Some(ids.iter().map(|i| hinted(descriptor(i))).collect());
                     resolved_exclude = Some(ids);
                 }
                 opts.public_key.attestation = match r.attestation {
@@ -503,7 +503,7 @@ impl World {
                     }
                     AllowSpec::Ids(l) => {
                         let ids: Vec<Vec<u8>> = l.iter().map(|i| self.resolve(i)).collect();
-                        let d = ids.iter().enumerate().map(|(k, i)| crate::util::descriptor_typed(i, a.allow_types == 0 || (a.allow_types == 2 && k % 2 == 0))).collect();
+                        let d = ids.iter().enumerate().map(|(k, i)| hinted(crate::util::descriptor_typed(i, a.allow_types == 0 || (a.allow_types == 2 && k % 2 == 0)))).collect();
                         resolved_allow = Some(ids);
                         Some(d)
                     }
@@ -636,6 +636,20 @@ impl World {
 // ---------------------------------------------------------------------------------------------
 // generators
 // ---------------------------------------------------------------------------------------------
+
+/// Transport hints as relying parties send them (a function of the id, so that replays agree): absent,
+/// empty, security-key transports, platform transports.
+pub fn hinted(mut d: webauthn::PublicKeyCredentialDescriptor) -> webauthn::PublicKeyCredentialDescriptor {
+    use webauthn::AuthenticatorTransport as T;
+    d.transports = match d.id.iter().fold(0u8, |a, b| a.wrapping_mul(31).wrapping_add(*b)) % 5 {
+        0 => None,
+        1 => Some(vec![]),
+        2 => Some(vec![T::Usb, T::Nfc]),
+        3 => Some(vec![T::Internal, T::Hybrid]),
+        _ => Some(vec![T::Ble]),
+    };
+    d
+}
 
 pub const RPS: &[(&str, &[&str])] = &[
     ("example.com", &["example.com", "www.example.com", "login.accounts.example.com"]),
